@@ -13,17 +13,18 @@
 (***************************************************************************)
 EXTENDS ReportsWriter, Json, IOUtils
 Obs == JsonDeserialize(IOEnv.OBS_FILE)
-TraceLog == Obs.traces      \* [events : <<string>>, n, entries : <<ints>>, wellFormed]
+TraceLog == Obs.traces      \* [events : <<[e, k]>>, n, entries : <<ints>>, wellFormed]; k = item a write belongs to (0 = header)
 VARIABLES i, idx
 tvars == <<wvars, i, idx>>
 T == TraceLog[i]
 TInit == i \in 1..Len(TraceLog) /\ idx = 0 /\ WInit
-Matches(e) == CASE e = "Start"       -> Start
+Matches(ev) == LET e == ev.e IN
+              CASE e = "Start"       -> Start
                 [] e = "Enq"         -> Enqueue
                 [] e = "PutFin"      -> PutFinalize
                 [] e = "Joined"      -> Joined
                 [] e = "JoinTimeout" -> JoinTimesOut
-                [] e = "W"           -> \E last \in BOOLEAN : Write(last)
+                [] e = "W"           -> cur = ev.k /\ \E last \in BOOLEAN : Write(last)
                 [] e = "Done"        -> w = "done" /\ UNCHANGED wvars
                 [] e = "Exit"        -> Exit
                 [] OTHER             -> FALSE          \* "Died", "CloseMain": no action of the specification does that
